@@ -846,12 +846,114 @@ def _check_nonflat_combination(chk, jm, f):
     chk.ob("C02-R5", "steadiers._jacobian.NonflatSteadyJacobian.eval[(A,B)/(A,B+kA)]", ok, detail, jm.loc(f))
 
 
+def rule_r6(chk, rid="C02-R6", sites=(1, 2)):
+    """evaluation point alignment: arrays of steady paths are created with the period of their first column, and evaluated at a column offset"""
+    from ..core import inline_locals, squash
+    chk.rule(rid, "equations and derivatives are evaluated at period 0 of the steady paths: wherever a steady/zero array is created with "
+             "shift_in_first_column = S and evaluated at column offset O, S + O == 0 (the array read for the lagged state: S' + O' == -1); "
+             "sites: Simultaneous._systemize -> System.__init__ (1), SteadyEvaluator (2), check_steady (3), the steady-autovalue updater (4); "
+             f"this property reads sites {sites}", floor=2)
+
+    def kw_of(call, name):
+        return next((k.value for k in call.keywords if k.arg == name), None)
+
+    def creations(f):
+        return [c for c in ast.walk(f) if isinstance(c, ast.Call) and isinstance(c.func, ast.Attribute) and c.func.attr in ("create_steady_array", "create_zero_array")
+                and kw_of(c, "shift_in_first_column") is not None]
+
+    def conv_with(symbols):
+        return alg.ToIR(attr=lambda d: sym(symbols[d]) if d in symbols else None, env={k: sym(v) for k, v in symbols.items() if "." not in k})
+
+    def decide(construct, s_expr, o_expr, want, symbols, loc):
+        try:
+            cv = conv_with(symbols)
+            total = add(cv(s_expr), cv(o_expr))
+            chk.ob(rid, construct, alg.equal(total, num(want)),
+                   f"first column holds period {unparse(s_expr)}; evaluated at offset {unparse(o_expr)}: period {alg.show_rat(alg.nf(total))} (want {want})", loc, sure=True)
+        except Undecided as e:
+            chk.undecided(rid, construct, str(e), loc)
+
+    # 1. _systemize -> System.__init__
+    mm = chk.repo.mod("irispie.simultaneous.main")
+    f = mm.func("Simultaneous._systemize")
+    chk.saw(mm, "Simultaneous._systemize")
+    sysm = chk.repo.mod("irispie.fords.systems")
+    init = sysm.func("System.__init__")
+    chk.saw(sysm, "System.__init__")
+    call = next((c for c in ast.walk(f) if isinstance(c, ast.Call) and (dotted(c.func) or "").endswith("System")), None)
+    ips = params(init)[1:]
+    if 1 not in sites:
+        pass
+    elif call is None:
+        chk.undecided(rid, "simultaneous.main.Simultaneous._systemize[System call]", "call not recognised", mm.loc(f))
+    else:
+        actual = dict(zip(ips, call.args))
+        actual.update({k.arg: k.value for k in call.keywords if k.arg})
+        off_caller = inline_locals(f, actual["column_offset"]) if "column_offset" in actual else None
+        gv = [c for c in ast.walk(init) if isinstance(c, ast.Call) and dotted(c.func) == "_get_vector" and len(c.args) >= 5]
+        by_array = {unparse(c.args[1]): c.args[4] for c in gv}
+        for arr, want in (("data_array", 0), ("data_array_lagged", -1)):
+            made = [n for n in ast.walk(f) if isinstance(n, ast.Assign) and unparse(n.targets[0]) == unparse(actual.get(arr, ast.Name(id="?"))) and n.value in creations(f)]
+            if arr not in by_array or off_caller is None or not made:
+                chk.undecided(rid, f"simultaneous.main.Simultaneous._systemize[{arr}]", "creation or read of the array not recognised", mm.loc(f))
+                continue
+            for mk in made:
+                if mk.value.func.attr == "create_zero_array":
+                    continue                 # zeros: alignment is immaterial
+                s_expr = inline_locals(f, kw_of(mk.value, "shift_in_first_column"))
+                # offset used inside System.__init__, in terms of the caller's argument
+                o_in = by_array[arr]
+                o_txt = unparse(o_in).replace("column_offset", f"({unparse(off_caller)})")
+                decide(f"simultaneous.main.Simultaneous._systemize->fords.systems.System.__init__[{arr}]", s_expr, ast.parse(o_txt, mode="eval").body, want,
+                       {"self._invariant._min_shift": "m", "self._invariant._max_shift": "M"}, sysm.loc(gv[0]))
+    # 2. SteadyEvaluator
+    em = chk.repo.mod("irispie.steadiers.evaluators")
+    ini = em.func("SteadyEvaluator.__init__")
+    chk.saw(em, "SteadyEvaluator.__init__")
+    off = em.func("SteadyEvaluator._column_offset")
+    rets = [r.value for r in walk_no_nested(off) if isinstance(r, ast.Return)]
+    cr = creations(ini)
+    if 2 not in sites:
+        pass
+    elif len(cr) == 1 and len(rets) == 1:
+        decide("steadiers.evaluators.SteadyEvaluator[steady array]", kw_of(cr[0], "shift_in_first_column"), rets[0], 0,
+               {"self._min_shift": "m", "self._column_offset": "OFFSET"}, em.loc(cr[0]))
+        uses = [c for q, g in em.functions() if q.startswith("SteadyEvaluator.") for c in ast.walk(g) if isinstance(c, ast.Call) and isinstance(c.func, ast.Attribute)
+                and c.func.attr == "eval" and len(c.args) >= 2 and squash(c.args[0]) == "self._steady_array"]
+        okk = bool(uses) and all(squash(c.args[1]) == "self._column_offset" for c in uses)
+        chk.ob(rid, "steadiers.evaluators.SteadyEvaluator[evaluated at the offset]", okk if uses else None,
+               f"{len(uses)} equator/jacobian evaluations of self._steady_array, all at self._column_offset", em.loc(ini))
+    else:
+        chk.undecided(rid, "steadiers.evaluators.SteadyEvaluator[steady array]", "creation / offset property not recognised", em.loc(ini))
+    # 3. check_steady   4. steady autovalue updater
+    for site, modname, qual, array_var in ((3, "irispie.simultaneous._steady", None, None), (4, "irispie.simultaneous._invariants", "_populate_steady_autovalue_updater", None)):
+        if site not in sites:
+            continue
+        m2 = chk.repo.mod(modname)
+        cands = [(q, g) for q, g in m2.functions() if creations(g) and (qual is None or q == qual) and "." not in q.replace("Inlay.", "")]
+        for q, g in cands:
+            chk.saw(m2, q)
+            for c in creations(g):
+                s_expr = inline_locals(g, kw_of(c, "shift_in_first_column"), skip_calls=True)
+                evals = [x for x in ast.walk(g) if isinstance(x, ast.Call) and len(x.args) >= 2 and isinstance(x.args[0], ast.Name) and (
+                    (isinstance(x.func, ast.Attribute) and x.func.attr == "eval") or (isinstance(x.func, ast.Name) and x.func.id == "func"))]
+                if not evals:
+                    chk.undecided(rid, f"{modname.replace('irispie.', '')}.{q}[steady array]", "no evaluation call at an offset recognised", m2.loc(c))
+                    continue
+                o_expr = inline_locals(g, evals[0].args[1], skip_calls=True)
+                symbols = {"equator.min_shift": "m", "self._min_shift": "m"}
+                decide(f"{modname.replace('irispie.', '')}.{q}[steady array]", s_expr, o_expr, 0, symbols, m2.loc(c))
+
+
 def run(chk):
     chk.guard(rule_r1, chk)
     chk.guard(rule_r2, chk)
     chk.guard(rule_r3, chk)
     chk.guard(rule_r4, chk)
     chk.guard(rule_r5, chk)
+    chk.guard(rule_r6, chk)
+    from . import c20
+    chk.guard(c20.rule_r7, chk, rid="C02-R7")
     from .. import args as _args
     chk.guard(_args.apply, chk, "C02-R90", {'aldi', 'jacobians', 'period_by_period', 'stacked_time', 'steadiers'}, 1)
     chk.assumptions = [
